@@ -363,7 +363,17 @@ impl Ctx {
     /// Some(snapshot) if every listed file could be read (and gunzipped)
     fn try_snapshot(&self, strict: bool) -> Option<Val> {
         let mut ents: Vec<(u128, u128, Vec<u8>)> = Vec::new();
-        for (name, _) in self.listing() {
+        // Read order: active file, temp files, then the archives by ascending index.  A rotation only
+        // moves a record temp -> base or archive i -> i+1, so a scan in this order that reads every
+        // listed file successfully cannot miss a record that is being moved (it is read either under
+        // its old name, or - the old name read earlier - the read of the old name fails and the strict
+        // scan is abandoned).  The directory as a whole is still not read atomically.
+        let mut names: Vec<String> = self.listing().into_iter().map(|(n, _)| n).collect();
+        names.sort_by_key(|n| {
+            let (kind, idx, _) = Ctx::classify(n);
+            (match kind { 0 => 0u8, 3 => 1, 1 => 2, _ => 3 }, idx)
+        });
+        for name in names {
             let (kind, idx, gz) = Ctx::classify(&name);
             let raw = match std::fs::read(self.dir.join(&name)) {
                 Ok(r) => r,
